@@ -35,6 +35,11 @@
 //! Tasks are periodic or SINGLE-triggered; FUNCTION_BLOCK instances can be bound to tasks
 //! (`PROGRAM I0 WITH T0 : P0 (tb7 WITH T1)`), also to tasks without any program.
 //!
+//! A `DebugControl` is attached from the start, after the first fault, or never, and a counting
+//! retain store is configured or not; before the refused requests of every fault PENDING
+//! EXTERNAL INPUTS are left (queued debugger writes and forces, fresh input-image and driver
+//! data, a dirty retain store): none of them may take effect on the faulted resource.
+//!
 //! Search `runner`: the same through `ResourceRunner::spawn` / `spawn_with_shared` (watchdog
 //! overrun, runtime error, scripted simulation fault); every driver call samples
 //! `ResourceControl::state()` / `last_error()`: no driver call may see the fault reported.
@@ -51,7 +56,11 @@ use sha2::{Digest, Sha256};
 
 use trust_runtime::error::RuntimeError;
 use trust_runtime::harness::TestHarness;
+use trust_runtime::debug::DebugControl;
+use trust_runtime::eval::expr::LValue;
 use trust_runtime::io::{IoAddress, IoDriver, IoInterface, IoSafeState};
+use trust_runtime::retain::RetainStore;
+use trust_runtime::RetainSnapshot;
 use trust_runtime::scheduler::{Clock, ResourceRunner, ResourceState, SharedGlobals, StartGate};
 use trust_runtime::simulation::{
     SimulationConfig, SimulationController, SimulationDisturbance, SimulationDisturbanceKind,
@@ -67,7 +76,7 @@ pub fn info() -> PropertyInfo {
     PropertyInfo {
         id: "C08",
         level: "fault_enumeration",
-        rule: "search `point`: one case = one fault history on one runtime: the FIRST fault is a fault point (site statement x cycle | driver read/write error x driver x cycle | watchdog_timeout / simulation_fault after c cycles) x failing-delivery driver x fault policy x watchdog action, enumerated exhaustively for each generated program (<= 12 site statements in programs + 0-3 task-bound FUNCTION_BLOCK instances, over 1-3 periodic or SINGLE-triggered tasks + background programs, nested FUNCTION/FB calls) with its generated safe-state map and 1-3 logging drivers; it is followed by 1-2 further faults on the same runtime (reduced grid over route {warm restart, cold restart, clear_fault, NO recovery} x fault kind x cycle x failing-delivery driver x fault-policy / watchdog-action switch x second armed site), each checked with the same oracle. search `runner`: proptest over (configuration, watchdog overrun | runtime error | scripted simulation fault, spawn | spawn_with_shared, policies) through the scheduler thread, the drivers sampling ResourceControl::state()/last_error() at every call. non-trivial = the first fault point lies inside a nested call, in a task-bound FB, in a task that also runs FB instances, or in a program that is not the first to run in the faulting cycle, or >= 2 drivers are attached, or a safe-state address overlaps a program output; distinct by SHA-256 of (program source, safe map, fault history)",
+        rule: "search `point`: one case = one fault history on one runtime: the FIRST fault is a fault point (site statement x cycle | driver read/write error x driver x cycle | watchdog_timeout / simulation_fault after c cycles) x failing-delivery driver x fault policy x watchdog action, enumerated exhaustively for each generated program (<= 12 site statements in programs + 0-3 task-bound FUNCTION_BLOCK instances, over 1-3 periodic or SINGLE-triggered tasks + background programs, nested FUNCTION/FB calls) with its generated safe-state map and 1-3 logging drivers; it is followed by 1-2 further faults on the same runtime (reduced grid over route {warm restart, cold restart, clear_fault, NO recovery} x fault kind x cycle x failing-delivery driver x fault-policy / watchdog-action switch x second armed site), each checked with the same oracle; a DebugControl is attached from the start / after the first fault / never and a counting retain store is configured or not (equal shares), and before the refused cycle requests of every fault a set of pending external inputs is left (queued debugger writes and forces on global/retain/instance/lvalue/%I/safe %Q targets, fresh input-image and driver data behind an AT %I variable, a dirty retain store) that must not take effect. search `runner`: proptest over (configuration, watchdog overrun | runtime error | scripted simulation fault, spawn | spawn_with_shared, policies) through the scheduler thread, the drivers sampling ResourceControl::state()/last_error() at every call. non-trivial = the first fault point lies inside a nested call, in a task-bound FB, in a task that also runs FB instances, or in a program that is not the first to run in the faulting cycle, or >= 2 drivers are attached, or a safe-state address overlaps a program output; distinct by SHA-256 of (program source, safe map, fault history)",
         assumptions: &[
             "an I/O driver 'with policy fault' is one whose read_inputs/write_outputs returns Err (io/modbus.rs handle_error: on_error=fault returns RuntimeError::IoDriver, warn/ignore return Ok); the logging drivers model exactly that",
             "'delivered to every driver' = write_outputs was invoked on the driver with an image holding the safe values, whether or not that driver then reports an error",
@@ -75,6 +84,7 @@ pub fn info() -> PropertyInfo {
             "watchdog_timeout() and simulation_fault() are injected between cycles, the way scheduler.rs / simulation.rs call them",
             "through the scheduler 'the fault is reported' = ResourceState::Faulted / last_error() become visible through ResourceHandle/ResourceControl; no driver call may observe either",
             "a fault event that hits a resource which is still faulted must force the safe state like any other fault when its decision says so (the property's safe-state sentence is not limited to the first fault); whether it replaces last_fault() is not asserted",
+            "'refused' is read as: nothing happens - no statement, no variable change (incl. AT %I-bound variables and queued/forced debugger values), no output-image change, no driver call, no retain-store write; the input IMAGE itself is not a variable and is not compared",
             "Runtime::clear_fault() is not named by the property: it is used only as a further route to a later fault (nothing is asserted about clear_fault itself; if it leaves the resource faulted the history ends without a verdict)",
         ],
         workers_quick: 8,
@@ -292,6 +302,7 @@ fn generate(tape: &Tape) -> Model {
     // sites
     let mut sites: Vec<Site> = Vec::new();
     let mut globals = String::new();
+    let mut retain_globals = String::new();
     let mut prog_ext: Vec<String> = vec![String::new(); nprogs];
     let mut prog_var: Vec<String> = vec![String::new(); nprogs];
     let mut prog_body: Vec<Vec<String>> = vec![Vec::new(); nprogs];
@@ -328,6 +339,10 @@ fn generate(tape: &Tape) -> Model {
                 bit0,
                 bits: 32,
             });
+        } else if k % 2 == 0 {
+            // every second plain counter is a RETAIN global: a value that changed in the
+            // faulting cycle is a pending retain-store save
+            retain_globals.push_str(&format!("    {counter} : DINT := 0;\n"));
         } else {
             globals.push_str(&format!("    {counter} : DINT := 0;\n"));
         }
@@ -581,7 +596,15 @@ fn generate(tape: &Tape) -> Model {
     for g in &out_decl_global {
         src.push_str(g);
     }
+    // targets of pending external inputs (never touched by a program statement): a plain
+    // global for queued debugger writes / forces and a variable bound to the input image
+    src.push_str("    dbgw : DINT := 0;\n    inw AT %IW0 : WORD;\n");
     src.push_str("END_VAR\n");
+    if !retain_globals.is_empty() {
+        src.push_str("VAR_GLOBAL RETAIN\n");
+        src.push_str(&retain_globals);
+        src.push_str("END_VAR\n");
+    }
     src.push_str(&task_decl);
     for (p, t) in prog_task.iter().enumerate() {
         let assoc = if prog_assoc[p].is_empty() {
@@ -689,6 +712,22 @@ pub struct Point {
     /// further faults on the same runtime, each after a recovery from the previous one
     #[serde(default)]
     pub more: Vec<Next>,
+    /// when a `DebugControl` is attached (`Runtime::enable_debug`)
+    #[serde(default)]
+    pub debugger: DebugAttach,
+    /// a logging retain store with save interval 0 is configured
+    #[serde(default)]
+    pub retain_store: bool,
+}
+
+#[derive(Clone, Copy, Debug, Default, PartialEq, Eq, Serialize, Deserialize)]
+pub enum DebugAttach {
+    #[default]
+    Never,
+    /// before the first cycle: the whole history runs with the debugger attached
+    FromStart,
+    /// only once the first fault has been reported
+    AfterFirstFault,
 }
 
 #[derive(Clone, Copy, Debug, PartialEq, Eq, Serialize, Deserialize)]
@@ -788,10 +827,15 @@ fn take_mode(m: &mut Mode) -> bool {
 }
 
 impl IoDriver for LogDriver {
-    fn read_inputs(&mut self, _inputs: &mut [u8]) -> Result<(), RuntimeError> {
+    fn read_inputs(&mut self, inputs: &mut [u8]) -> Result<(), RuntimeError> {
         let mut s = self.shared.lock().unwrap();
         s.events.push(Event::Read { driver: self.id });
         s.observe();
+        // the driver always has fresh input data (a changing pattern)
+        let stamp = s.events.len() as u8;
+        for (i, b) in inputs.iter_mut().enumerate() {
+            *b = stamp.wrapping_add(i as u8).wrapping_add(self.id as u8);
+        }
         if take_mode(&mut s.read_mode[self.id]) {
             return Err(RuntimeError::IoDriver(
                 format!("driver {} read failed", self.id).into(),
@@ -816,9 +860,63 @@ impl IoDriver for LogDriver {
     }
 }
 
+/// Retain store that only counts what it is asked to do.
+struct LogRetainStore {
+    stores: Arc<Mutex<u64>>,
+}
+
+impl RetainStore for LogRetainStore {
+    fn load(&self) -> Result<RetainSnapshot, RuntimeError> {
+        Ok(RetainSnapshot::default())
+    }
+    fn store(&self, _snapshot: &RetainSnapshot) -> Result<(), RuntimeError> {
+        *self.stores.lock().unwrap() += 1;
+        Ok(())
+    }
+}
+
 // ---------------------------------------------------------------------------------------
 // Observation helpers
 // ---------------------------------------------------------------------------------------
+
+/// Names of the variables that differ between two storage states (for messages).
+fn storage_view(rt: &Runtime) -> Vec<(String, String)> {
+    let st = rt.storage();
+    let mut out: Vec<(String, String)> = Vec::new();
+    for (k, v) in st.globals() {
+        out.push((format!("global {k}"), format!("{v:?}")));
+    }
+    for (k, v) in st.retain() {
+        out.push((format!("retain {k}"), format!("{v:?}")));
+    }
+    let mut ids: Vec<_> = st.instances().keys().copied().collect();
+    ids.sort_by_key(|i| i.0);
+    for id in ids {
+        if let Some(inst) = st.instances().get(&id) {
+            for (k, v) in &inst.variables {
+                out.push((format!("instance {} ({}) {k}", id.0, inst.type_name), format!("{v:?}")));
+            }
+        }
+    }
+    out
+}
+
+fn storage_diff(before: &[(String, String)], after: &[(String, String)]) -> String {
+    let mut out = Vec::new();
+    for (k, v) in after {
+        match before.iter().find(|(bk, _)| bk == k) {
+            Some((_, bv)) if bv == v => {}
+            Some((_, bv)) => out.push(format!("{k}: {bv} -> {v}")),
+            None => out.push(format!("{k}: (absent) -> {v}")),
+        }
+    }
+    for (k, v) in before {
+        if !after.iter().any(|(ak, _)| ak == k) {
+            out.push(format!("{k}: {v} -> (absent)"));
+        }
+    }
+    out.join("; ")
+}
 
 fn storage_digest(rt: &Runtime) -> String {
     let st = rt.storage();
@@ -960,6 +1058,9 @@ fn enumerate_points(model: &Model, runs: &[Vec<bool>]) -> Vec<Point> {
                         deliver_fail,
                         warm_restart: flip,
                         more,
+                        debugger: [DebugAttach::FromStart, DebugAttach::Never, DebugAttach::AfterFirstFault]
+                            [(c / 2) % 3],
+                        retain_store: (c / 6) % 2 == 1,
                     });
                 }
             }
@@ -1062,6 +1163,10 @@ struct Session<'a> {
     trig: bool,
     /// sites armed in addition to the fault kind's own site (`Next::also_site`)
     also_armed: Vec<usize>,
+    debugger: Option<DebugControl>,
+    attach_debugger_after_fault: bool,
+    /// number of `RetainStore::store` calls, when a retain store is configured
+    retain_stores: Option<Arc<Mutex<u64>>>,
 }
 
 fn kind_fits(kind: &Kind, deliver_fail: Option<u8>, cycle: u8, model: &Model) -> bool {
@@ -1166,6 +1271,88 @@ impl Session<'_> {
         self.shared.lock().unwrap().events.len()
     }
 
+    /// External inputs that are PENDING when a cycle is requested on the faulted resource;
+    /// none of them may take effect while the request is refused: queued debugger writes
+    /// (global, retain, instance, lvalue, input image), debugger forces (global, retain,
+    /// instance, %I, a safe-state %Q address with the opposite value), fresh data in the
+    /// input image behind an AT-bound variable, fresh driver input data (the drivers always
+    /// have some), a dirty retain store. Returns what was queued (for messages).
+    fn pend_external_inputs(&mut self, round: usize) -> Vec<&'static str> {
+        let mut what = Vec::new();
+        let model = self.model;
+        let v = |n: i32| Value::DInt(1_000_000 + 10 * round as i32 + n);
+        // input image behind `inw AT %IW0 : WORD` (the image is not a variable, `inw` is)
+        if let Ok(addr) = IoAddress::parse("%IW0") {
+            let _ = self
+                .h
+                .runtime_mut()
+                .io_mut()
+                .write(&addr, Value::Word(0xA5A5u16.wrapping_add(round as u16)));
+            what.push("input image %IW0 written (AT-bound variable inw)");
+        }
+        if self.retain_stores.is_some() {
+            self.h.runtime_mut().mark_retain_dirty();
+            what.push("retain store marked dirty");
+        }
+        if let Some(dbg) = &self.debugger {
+            let prog0 = match self.h.runtime().storage().get_global("I0") {
+                Some(Value::Instance(id)) => Some(*id),
+                _ => None,
+            };
+            dbg.enqueue_global_write("dbgw", v(1));
+            dbg.enqueue_retain_write("dbgr", v(2));
+            if let Some(id) = prog0 {
+                dbg.enqueue_instance_write(id, "spare", v(3));
+            }
+            dbg.enqueue_lvalue_write(None, Vec::new(), LValue::Name("dbgw".into()), v(4));
+            if let Ok(addr) = IoAddress::parse("%IW0") {
+                dbg.enqueue_io_write(addr.clone(), Value::Word(0x1234));
+                dbg.force_io(addr, Value::Word(0x4321));
+            }
+            dbg.force_global("dbgw", v(5));
+            dbg.force_retain("dbgr", v(6));
+            if let Some(id) = prog0 {
+                dbg.force_instance(id, "spare", v(7));
+            }
+            if let Some(e) = model.safe.first() {
+                let opposite = match &e.value {
+                    Value::Bool(b) => Value::Bool(!b),
+                    Value::Byte(x) => Value::Byte(!x),
+                    Value::Word(x) => Value::Word(!x),
+                    Value::DWord(x) => Value::DWord(!x),
+                    Value::LWord(x) => Value::LWord(!x),
+                    other => other.clone(),
+                };
+                dbg.force_io(e.addr.clone(), opposite);
+            }
+            what.push("debugger: queued global/retain/instance/lvalue/%I writes, forced global/retain/instance/%I/safe %Q");
+        }
+        what
+    }
+
+    /// Take the forces back, so that the rest of the history runs unforced. Queued writes
+    /// cannot be taken back through the public API: they target `dbgw`, `dbgr`, `spare`
+    /// and %IW0 only (never a counter or a control variable) and are applied by the first live cycle after a recovery.
+    fn release_forces(&mut self) {
+        if let Some(dbg) = &self.debugger {
+            let prog0 = match self.h.runtime().storage().get_global("I0") {
+                Some(Value::Instance(id)) => Some(*id),
+                _ => None,
+            };
+            dbg.release_global("dbgw");
+            dbg.release_retain("dbgr");
+            if let Some(id) = prog0 {
+                dbg.release_instance(id, "spare");
+            }
+            if let Ok(addr) = IoAddress::parse("%IW0") {
+                dbg.release_io(&addr);
+            }
+            if let Some(e) = self.model.safe.first() {
+                dbg.release_io(&e.addr);
+            }
+        }
+    }
+
     /// The oracle for the moment a fault has just been reported and for the cycle requests
     /// that follow. `round` is 1 for the first fault of the runtime's life.
     fn verify_fault(
@@ -1255,8 +1442,14 @@ impl Session<'_> {
 
         // ---- later cycle requests -----------------------------------------------------
         self.heal(kind);
+        if self.attach_debugger_after_fault && self.debugger.is_none() {
+            self.debugger = Some(self.h.runtime_mut().enable_debug());
+        }
+        let pending = self.pend_external_inputs(round);
         let digest0 = storage_digest(self.h.runtime());
+        let view0 = storage_view(self.h.runtime());
         let image0 = self.h.runtime().io().outputs().to_vec();
+        let stores0 = self.retain_stores.as_ref().map(|c| *c.lock().unwrap());
         for later in 1..=LATER_CYCLES {
             self.h.advance_time(Duration::from_millis(STEP_MS));
             let res = self.h.runtime_mut().execute_cycle();
@@ -1277,8 +1470,17 @@ impl Session<'_> {
             }
             if storage_digest(rt) != digest0 {
                 return Err(format!(
-                    "{tag}refused cycle request {later} changed a variable (storage digest differs)"
+                    "{tag}refused cycle request {later} changed a variable: {} (pending external inputs: {pending:?})",
+                    storage_diff(&view0, &storage_view(rt))
                 ));
+            }
+            if let (Some(c), Some(n0)) = (&self.retain_stores, stores0) {
+                let n = *c.lock().unwrap();
+                if n != n0 {
+                    return Err(format!(
+                        "{tag}refused cycle request {later} wrote to the retain store ({n0} -> {n} store calls)"
+                    ));
+                }
             }
             if rt.io().outputs() != image0.as_slice() {
                 return Err(format!(
@@ -1298,6 +1500,7 @@ impl Session<'_> {
                 check_safe(rt, "after a refused cycle request")?;
             }
         }
+        self.release_forces();
         Ok(())
     }
 }
@@ -1372,7 +1575,25 @@ fn check_point_inner(model: &Model, point: &Point, probe: &mut Probe) -> Result<
         policy: point.policy,
         trig: false,
         also_armed: Vec::new(),
+        debugger: None,
+        attach_debugger_after_fault: point.debugger == DebugAttach::AfterFirstFault,
+        retain_stores: None,
     };
+    if point.debugger == DebugAttach::FromStart {
+        sess.debugger = Some(sess.h.runtime_mut().enable_debug());
+    }
+    if point.retain_store {
+        let stores = Arc::new(Mutex::new(0u64));
+        sess.h.runtime_mut().set_retain_store(
+            Some(Box::new(LogRetainStore {
+                stores: stores.clone(),
+            })),
+            Some(Duration::from_millis(0)),
+        );
+        sess.retain_stores = Some(stores);
+    }
+    probe.label(format!("debugger={:?}", point.debugger));
+    probe.label(if point.retain_store { "retain_store=configured" } else { "retain_store=none" });
 
     // ---- round 1: run up to the first fault ---------------------------------------------
     let in_cycle = matches!(point.kind, Kind::Site { .. } | Kind::Read { .. } | Kind::Write { .. });
@@ -2026,6 +2247,8 @@ fn run(ctx: &mut RunCtx) {
             deliver_fail: None,
             warm_restart: false,
             more: Vec::new(),
+            debugger: DebugAttach::Never,
+            retain_store: false,
         },
         expect_map: None,
     });
